@@ -542,7 +542,24 @@ def validate (env : Env) : Except AddErr Env :=
   | some what => .error (.unchecked what)
   | none => .ok env
 
-/-- `Tera::default()` + configuration, then `add_raw_templates(sources)`. -/
+/-- `Tera::default()` + configuration, then `add_raw_templates(sources)` — exactly the engine's
+stages, WITHOUT the model's own run of the checker (`validate`).  `engine_never_panics_T`
+(Props/Pipeline.lean) is about this function: every chunk of the environment it returns has a
+`Vm.verify` certificate by theorem, not by check. -/
+def addTemplatesT (cfg : Config) (sources : List (String × Bytes)) : Except AddErr Env :=
+  match newAll cfg.delims sources with
+  | .error e => .error e
+  | .ok tds =>
+    match register cfg tds with
+    | .error e => .error e
+    | .ok st =>
+      match buildEnv cfg tds st with
+      | none => .error (.internal "derived data names a chunk that does not exist")
+      | some env => .ok env
+
+/-- `addTemplatesT` followed by the translation validation of every stored chunk
+(`Vm.checkChunk`; outcome `unchecked`).  Kept because `checkChunk` infers its own table: the
+theorems P5 about this function do not depend on the compiler / optimiser bridges. -/
 def addTemplates (cfg : Config) (sources : List (String × Bytes)) : Except AddErr Env :=
   match newAll cfg.delims sources with
   | .error e => .error e
@@ -567,6 +584,13 @@ def render (fuel : Fuel) (env : Env) (name : String) (ctx : Ctx) (globalCtx : Ct
 def renderBlock (fuel : Fuel) (env : Env) (name block : String) (ctx : Ctx) (globalCtx : Ctx := []) :
     Outcome :=
   Vm.render fuel env name (some block) ctx globalCtx
+
+/-- source text in, text out, without the model's run of the checker -/
+def renderSourcesT (cfg : Config) (sources : List (String × Bytes)) (fuel : Fuel) (name : String)
+    (ctx : Ctx) : Except AddErr Outcome :=
+  match addTemplatesT cfg sources with
+  | .error e => .error e
+  | .ok env => .ok (render fuel env name ctx)
 
 /-- source text in, text out: the whole engine in one call -/
 def renderSources (cfg : Config) (sources : List (String × Bytes)) (fuel : Fuel) (name : String)
